@@ -27,6 +27,16 @@ def status_ok(v):
     return isinstance(v, MibStatus) and str(v) in cs.SIX
 
 
+def same_error(e, x):
+    """The status carries error e; x was raised by a component.  The same object, or e wrapping x, or an equal copy."""
+    if e is x or getattr(e, '__cause__', None) is x or getattr(e, '__context__', None) is x:
+        return True
+    if type(e) is type(x):
+        mx = str(getattr(x, 'msg', x)).split(' at MIB')[0]
+        return bool(mx) and mx in str(getattr(e, 'msg', e))
+    return False
+
+
 def judge(t):
     """-> list of violations of C07 over trace t."""
     from pysmi import error
@@ -128,11 +138,11 @@ def judge(t):
             e = getattr(v, 'error', None)
             if e is None or not isinstance(e, error.PySmiError):
                 V('C07.6-error', 'failed status of %s carries no package error (%r)' % (m, e), what='no-error')
-            elif not any(c.exc is e for c in raised):
+            elif not any(same_error(e, c.exc) for c in raised):
                 # compile() may create the error itself: a file that holds no module at all
                 if not any(c.ok and c.ctx == m and not c.res for c in t.by('parser.parse')):
                     V('C07.6-error', 'error attached to %s was never raised by a component during this call' % m, what='foreign-error')
-            elif not any(c.exc is e and (c.mib == m or c.ctx == m) for c in raised):
+            elif not any(same_error(e, c.exc) and (c.mib == m or c.ctx == m) for c in raised):
                 V('C07.6-error', 'error attached to %s was raised while processing another module' % m, what='others-error')
         if s == 'missing':
             gd = [c for c in t.by('src.getData') if c.mib == m]
